@@ -23,3 +23,11 @@ Theorem par_flow_unique_providers items : unique_providers (par_flow items).
 Proof.
   apply nodup_unique_providers. cbn [par_flow gtasks]. destruct (embed_outs items 0) as [m ->]. apply seq_NoDup.
 Qed.
+
+(* with the template's per-iteration copies every element job calls the function with its
+   own (i, s[i]), under either loop-variable semantics of Go; without them it does not *)
+Theorem own_copy_args (V : Type) (d : V) sem s i : element_args V d OwnCopy sem s i = (i, nth i s d).
+Proof. reflexivity. Qed.
+
+Theorem loop_vars_refuted : element_args nat 0 LoopVars false [7; 8] 0 = (1, 8).
+Proof. reflexivity. Qed.
